@@ -72,6 +72,9 @@ pub struct ScriptDriver<'s, const OV: bool> {
     pub counter: std::rc::Rc<std::cell::Cell<usize>>,
     /// when the script has run out keep repeating its last step (not flagged as exhausted)
     pub repeat_last: bool,
+    /// storage the returned entries point into; it is re-used for every answer (entry i of
+    /// every answer lives at the same address), as a driver with a fixed buffer would do
+    pub slots: Vec<dtr::Signal>,
 }
 
 impl<'s, const OV: bool> ScriptDriver<'s, OV> {
@@ -83,7 +86,7 @@ impl<'s, const OV: bool> ScriptDriver<'s, OV> {
                 _ => None,
             })
             .unwrap_or_default();
-        ScriptDriver { known: known.iter().map(|s| s.to_real()).collect(), script, pos: 0, log: vec![], exhausted: false, fallback, counter: Default::default(), repeat_last: false }
+        ScriptDriver { known: known.iter().map(|s| s.to_real()).collect(), script, pos: 0, log: vec![], exhausted: false, fallback, counter: Default::default(), repeat_last: false, slots: vec![] }
     }
 
     fn record(inputs: &[dtr::InputEntry<'_>]) -> Vec<(String, V, bool)> {
@@ -110,16 +113,25 @@ impl<'s, const OV: bool> ScriptDriver<'s, OV> {
             Step::Ans(a) => {
                 let a = std::rc::Rc::new(a);
                 self.log.push(Call { rw: true, inputs: rec, answer: Some(a.clone()) });
-                let known = &self.known;
-                Ok(a.iter()
-                    .map(|(n, v)| {
-                        let signal = known
-                            .iter()
-                            .find(|s| &s.name == n)
-                            .unwrap_or_else(|| panic!("harness: driver asked to answer for unknown signal {n}"));
-                        dtr::OutputEntry { signal, value: v.to_output() }
-                    })
-                    .collect())
+                // never shrink or reallocate the buffer once it is large enough: addresses stay put
+                if self.slots.capacity() < a.len().max(8) {
+                    self.slots.reserve(a.len().max(8) - self.slots.len());
+                }
+                for (i, (n, _)) in a.iter().enumerate() {
+                    let signal = self
+                        .known
+                        .iter()
+                        .find(|s| &s.name == n)
+                        .unwrap_or_else(|| panic!("harness: driver asked to answer for unknown signal {n}"))
+                        .clone();
+                    if i < self.slots.len() {
+                        self.slots[i] = signal;
+                    } else {
+                        self.slots.push(signal);
+                    }
+                }
+                let slots = &self.slots;
+                Ok(a.iter().enumerate().map(|(i, (_, v))| dtr::OutputEntry { signal: &slots[i], value: v.to_output() }).collect())
             }
             Step::Fault(id) => {
                 self.log.push(Call { rw: true, inputs: rec, answer: None });
